@@ -129,9 +129,23 @@ def rows_of(rows):
     """the byte string whose hex rows a list of row strings is (ghost; the helper itself has the bounded stand-in)"""
 
 
-contract(LST + '._generate_bytecode_line_string', props=['C16'], assumed=True,
+# verified on the real body: the helper returns a fresh list that is empty exactly for no bytes (the bytes column of
+# `_print_line_object` reads row 0, so a non-empty byte string without a row would end the run with an internal error).
+# The invariant needs no string reasoning: after the first byte either a row was appended or a row is being filled.
+contract(LST + '._generate_bytecode_line_string', props=['C16'],
+         params={'cls': 'opaque', 'line_bytes': 'bytearray', 'bytes_per_str': 'int'}, returns='list[str]',
+         locals={'cur_str': 'str?', 'results': 'list[str]'},
+         ensures=['fresh(result)', '(len(result) == 0) == (len(line_bytes) == 0)'],
+         modifies=[], allocates=True,
+         loops={'0': dict(idx='i', modifies=['results[*]'],
+                          inv=['i <= len(line_bytes)', 'fresh(results)',
+                               '(i == 0) == (len(results) == 0 and cur_str is None)'])})
+
+contract(LST + '._generate_bytecode_line_string', name='abs:ListingPrettyPrinter._generate_bytecode_line_string',
+         props=['C16'], assumed=True,
          reason='builds the rows by string concatenation (bounded stand-in `listing-byte-rows`); here: a fresh list tagged '
-                'with the byte string it renders, empty exactly for no bytes',
+                'with the byte string it renders (assumed); that it is empty exactly for no bytes is verified on the body '
+                'by the contract above',
          params={'cls': 'opaque', 'line_bytes': 'bytearray'}, returns='list[str]',
          ensures=['fresh(result)', 'rows_of(result) is line_bytes', '(len(result) == 0) == (len(line_bytes) == 0)'],
          modifies=[], allocates=True, no_frame_check=True)
